@@ -79,7 +79,13 @@ def c02():
     return [rewrites.OutputOptimize(), rewrites.BriefChain()]
 
 
+def c14():
+    from harness import frontends, lookup
+    return [frontends.AssembleAny(), frontends.ReaderNoPanic(), frontends.DecodeNoPanic(), frontends.DisassembleNoPanic(), lookup.NameLookup()]
+
+
 REGISTRY = {
+    'C14': dict(harnesses=c14, run=_runner('C14', c14)),
     'C02': dict(harnesses=c02, run=_runner('C02', c02)),
     'C03': dict(harnesses=c03, run=_runner('C03', c03)),
     'C01': dict(harnesses=c01, run=_runner('C01', c01)),
